@@ -130,7 +130,7 @@ var famC07 = []string{"cc-outcome-differs", "two-pending-config-changes", "remov
 	"campaign-with-unapplied-config-change", "raft-membership-differs-from-applied"}
 var famC18 = []string{"read-confirmed-without-voting-quorum", "raft-membership-differs-from-applied", "non-voter-campaigns", "removed-replica-leads", "removed-leader-still-leader", "witness-left-witness-state",
 	"leader-without-voting-quorum", "commit-without-voting-quorum", "payload-sent-to-witness", "metadata-entry-on-non-witness"}
-var famC17 = []string{"stuck-quorum-needs-self-removed-replica", "no-leader-in-fair-phase", "proposal-stuck-in-fair-phase", "read-stuck-in-fair-phase",
+var famC17 = []string{"stuck-higher-term-replica-ignores-leader", "stuck-witness-ahead-of-every-voter", "stuck-quorum-needs-self-removed-replica", "no-leader-in-fair-phase", "proposal-stuck-in-fair-phase", "read-stuck-in-fair-phase",
 	"replica-not-caught-up", "config-change-stuck-in-fair-phase", "completed-without-quorum"}
 var famC01 = []string{"linearizability-violated", "stale-read-index", "write-applied-twice", "read-confirmed-without-voting-quorum"}
 
@@ -898,7 +898,9 @@ func (s *sim) doAction(a simAction) {
 				s.round(true)
 			}
 			if x.kind == kNonVoting && a.C%2 == 0 {
-				if l2 := s.leader(); l2 != nil {
+				// promotion only of a replica that really is a non-voting member (adding a
+				// replica configured as non-voting directly as a full member is an operator error)
+				if l2 := s.leader(); l2 != nil && l2.mem.NonVotings[id] != "" {
 					s.flag("cc-promotion")
 					s.configChange(l2, pb.ConfigChange{Type: pb.AddNode, ReplicaID: id, Address: simAddr(id), ConfigChangeId: l2.mem.CCID})
 				}
@@ -948,9 +950,10 @@ func (s *sim) fairPhase(requireProgress bool) {
 			s.fixTimeout(r)
 		}
 	}
-	budget := 30 * int(s.opts.electionRTT)
+	// (timeouts are drawn from [T, 5T) in the fair phase, so 80 T is roughly 30 election rounds)
+	budget := 80 * int(s.opts.electionRTT)
 	if !requireProgress {
-		budget = 12 * int(s.opts.electionRTT)
+		budget = 20 * int(s.opts.electionRTT)
 	}
 	var wop, rop *simOp
 	proposedAt, readAt := -1, -1
@@ -1053,6 +1056,30 @@ func (s *sim) fairPhase(requireProgress bool) {
 		s.finalAgreement()
 		return
 	}
+	if f, ok := s.stuckHigherTermNonCampaigner(); ok {
+		s.fail("stuck-higher-term-replica-ignores-leader", "replica %d has a higher term than the leader (a removed or partitioned replica asked it for a vote), silently ignores the leader's messages because neither CheckQuorum nor PreVote is enabled, and cannot campaign itself because it is not (yet) in its own membership: it never catches up; %s", f, s.describe())
+	}
+	if s.leader() == nil && !s.anyElectable() {
+		// nobody can win an election in this state; tolerated only for the two known
+		// ways of getting there
+		for _, id := range s.ids {
+			r0 := s.reps[id]
+			if !r0.removed {
+				continue
+			}
+			for _, r := range s.runningReps() {
+				if r.kind == kVoter && r.mem.voting()[r0.id] {
+					s.fail("stuck-quorum-needs-self-removed-replica", "replica %d committed and applied its own removal and stopped, replica %d still counts it as a voting member and no running voting member can win an election; %s", r0.id, r.id, s.describe())
+				}
+			}
+		}
+		if w, ok := s.stuckBehindWitness(); ok {
+			s.fail("stuck-witness-ahead-of-every-voter", "witness %d holds entries that no full voting member holds and no running voting member can win an election; %s", w, s.describe())
+		}
+	}
+	if w, ok := s.stuckBehindWitness(); ok {
+		s.fail("stuck-witness-ahead-of-every-voter", "witness %d holds entries that no full voting member holds any more (sent to it before the leader's own save, which a crash then lost): it refuses its vote to every candidate and cannot lead itself; %s", w, s.describe())
+	}
 	if who, ok := s.stuckOnSelfRemoved(); ok {
 		s.fail("stuck-quorum-needs-self-removed-replica", "replica %d committed and applied its own removal and stopped, but the remaining members never learnt the commit and cannot reach the old quorum without it; %s", who, s.describe())
 	}
@@ -1069,6 +1096,100 @@ func (s *sim) fairPhase(requireProgress bool) {
 	s.fail("replica-not-caught-up", "a reachable replica did not catch up after %d fair rounds; %s", budget, s.describe())
 }
 
+// anyElectable: could any running full voting member win an election in the
+// current state (its own membership view decides the quorum, every running
+// replica it counts grants its vote iff the candidate's log is up to date)?
+func (s *sim) anyElectable() bool {
+	type lg struct{ term, index uint64 }
+	last := func(r *simReplica) lg {
+		l := r.raft().log
+		t, _ := l.lastTerm()
+		return lg{t, l.lastIndex()}
+	}
+	for _, c := range s.runningReps() {
+		if c.kind != kVoter {
+			continue
+		}
+		if _, ok := c.mem.Addresses[c.id]; !ok {
+			continue
+		}
+		voting := c.mem.voting()
+		cl := last(c)
+		grants := 1
+		for _, r := range s.runningReps() {
+			if r.id == c.id || !voting[r.id] {
+				continue
+			}
+			rl := last(r)
+			if cl.term > rl.term || (cl.term == rl.term && cl.index >= rl.index) {
+				grants++
+			}
+		}
+		if grants >= len(voting)/2+1 {
+			return true
+		}
+	}
+	return false
+}
+
+// stuckHigherTermNonCampaigner recognises the stuck shape of known finding F5.
+func (s *sim) stuckHigherTermNonCampaigner() (uint64, bool) {
+	if s.opts.checkQuorum || s.opts.preVote {
+		return 0, false
+	}
+	l := s.leader()
+	if l == nil {
+		return 0, false
+	}
+	for _, r := range s.runningReps() {
+		if r.id == l.id || r.raft().term <= l.raft().term {
+			continue
+		}
+		if r.raft().selfRemoved() || r.kind != kVoter {
+			return r.id, true
+		}
+	}
+	return 0, false
+}
+
+// stuckBehindWitness recognises the stuck shape of known finding F4: a running
+// witness whose log is more up to date than the log of every running full voting
+// member of its membership, while its vote is needed for a quorum.
+func (s *sim) stuckBehindWitness() (uint64, bool) {
+	for _, w := range s.runningReps() {
+		if w.kind != kWitness {
+			continue
+		}
+		wl := w.raft().log
+		wt, err := wl.lastTerm()
+		if err != nil {
+			continue
+		}
+		voting := w.mem.voting()
+		ahead := true
+		voters := 0
+		for _, r := range s.runningReps() {
+			if r.kind != kVoter || !voting[r.id] {
+				continue
+			}
+			voters++
+			rl := r.raft().log
+			rt, err := rl.lastTerm()
+			if err != nil {
+				continue
+			}
+			if rt > wt || (rt == wt && rl.lastIndex() >= wl.lastIndex()) {
+				ahead = false
+			}
+		}
+		// the witness's vote is needed when the running full voters alone are no majority
+		if ahead && voters > 0 && voters < len(voting)/2+1 {
+			return w.id, true
+		}
+	}
+	return 0, false
+}
+
 // stuckOnSelfRemoved recognises one specific stuck shape (known finding F2): some
 // replica applied its own removal and stopped, every running replica still
 // counts it as a voting member, and without it the running voting members are
@@ -1082,7 +1203,8 @@ func (s *sim) stuckOnSelfRemoved() (uint64, bool) {
 		all := true
 		any := false
 		for _, r := range s.runningReps() {
-			if r.kind != kVoter {
+			if r.kind != kVoter || len(r.mem.Addresses) == 0 {
+				// (a started replica whose addition never committed is not part of the shard)
 				continue
 			}
 			any = true
